@@ -249,6 +249,7 @@ c05_8bit!(Aminstari8PartialHardLimitDeg1Clip, false, true, c05_quantize__Aminsta
 c05_8bit!(Aminstari8JonesPartialHardLimitDeg1Clip, true, true, c05_quantize__Aminstari8JonesPartialHardLimitDeg1Clip, c05_clip__Aminstari8JonesPartialHardLimitDeg1Clip, c05_var8__Aminstari8JonesPartialHardLimitDeg1Clip, c05_var32__Aminstari8JonesPartialHardLimitDeg1Clip, c05_layered2__Aminstari8JonesPartialHardLimitDeg1Clip, c05_layered3__Aminstari8JonesPartialHardLimitDeg1Clip);
 
 include!("c05_more.rs");
+include!("c05_scratch.rs");
 
 // a concrete playback test printed by Kani for a failing harness of this module is replayed from here
 include!(concat!(env!("VERIF_KANI_GEN"), "/playback_c05.rs"));
